@@ -31,6 +31,14 @@ impl ListDefinition {
         self.items.as_ref().unwrap()
     }
 
+    #[cfg(feature = "verif")]
+    pub(crate) fn verif_items(&self) -> Vec<(String, i32)> {
+        self.item_name_to_values
+            .iter()
+            .map(|(k, v)| (k.clone(), *v))
+            .collect()
+    }
+
     pub fn get_name(&self) -> &str {
         &self.name
     }
